@@ -272,6 +272,8 @@ type harnessEvidence struct {
 	Vacuity     string              `json:"vacuity"`
 	Samples     []string            `json:"samples,omitempty"`
 	NFuncs      int                 `json:"functions_encoded_count"`
+	Cross       []*interp.CrossStat `json:"second_solver_crosscheck,omitempty"`
+	CrossOf     int64               `json:"unsat_verdicts_of_primary_solver,omitempty"`
 }
 
 func cmdRun(args []string) int {
@@ -339,6 +341,7 @@ func cmdRun(args []string) int {
 	var violationLines []string
 	broken := false
 	var totalPaths, totalSteps int64
+	crossTotal := map[string]int{}
 	nativeRuns := 0
 	var samples []interface{}
 	allExhaustive := true
@@ -392,6 +395,13 @@ func cmdRun(args []string) int {
 				opts.StepBudget = to.StepBudget
 			}
 			opts.MaxPaths = to.MaxPaths
+			if os.Getenv("VCHECK_CROSS") != "0" {
+				opts.CrossSolvers = []string{"z3-new", "cvc5"}
+				opts.CrossEvery, opts.CrossMax = 40, 45
+				if *tier == "thorough" {
+					opts.CrossEvery, opts.CrossMax = 8, 4000
+				}
+			}
 			wall := 900
 			if *tier == "thorough" {
 				wall = 3300
@@ -410,7 +420,13 @@ func cmdRun(args []string) int {
 			totalSteps += rep.Steps
 			he := harnessEvidence{Unit: u.Name, Harness: h.Func, Bounds: h.Bounds, Opts: to, Paths: rep.Paths, Outcomes: rep.Outcomes, Steps: rep.Steps,
 				Asserts: rep.SortedAsserts(), Reached: rep.Reached, Queries: rep.Queries, Sat: rep.Sat, Unsat: rep.Unsat, Unknown: rep.Unknown,
-				SolverS: rep.SolverTime.Seconds(), WallS: rep.Wall.Seconds(), Exhaustive: rep.Exhaustive, Inconclusive: rep.Inconclusive, Samples: rep.Samples, NFuncs: len(rep.Funcs)}
+				SolverS: rep.SolverTime.Seconds(), WallS: rep.Wall.Seconds(), Exhaustive: rep.Exhaustive, Inconclusive: rep.Inconclusive, Samples: rep.Samples, NFuncs: len(rep.Funcs), Cross: rep.Cross, CrossOf: rep.CrossSeen}
+			for _, cs := range rep.Cross {
+				crossTotal[cs.Solver+":queries"] += cs.Queries
+				crossTotal[cs.Solver+":unsat_confirmed"] += cs.Agree
+				crossTotal[cs.Solver+":answered_sat"] += cs.Disagree
+				crossTotal[cs.Solver+":unknown_or_timeout"] += cs.Unknown
+			}
 			for k := range rep.Funcs {
 				funcs[k] = true
 			}
@@ -632,7 +648,8 @@ func cmdRun(args []string) int {
 			"schedule_dependent":            keys(kahn),
 			"outside_claim":                 cfg.Outside,
 			"known_findings":                knownOut,
-			"solver":                        "z3 (incremental, one process per worker); unknown/timeouts are reported as inconclusive",
+			"solver":                        "z3 4.8.12 (incremental, one process per worker); unknown/timeouts are reported as inconclusive; a sample of its unsat verdicts (assertion discharges and pruned branches) is re-asked of z3 5.1.0 and cvc5 as standalone scripts, a sat answer there makes the harness inconclusive",
+			"second_solver_crosscheck":      crossTotal,
 		},
 	}
 	// VCHECK_EVIDENCE_DIR: used when a check is run against a deliberately altered tree
